@@ -353,6 +353,81 @@ def entry_variants(ctx, i):
     ctx.case({"variants": sorted(v[0].split(":")[0] for v in variants), "s": gen.shape_of(spec), "r": kind}, len(variants) >= 3)
 
 
+def derived_family_history(ctx, i):
+    """A graph and graphs DERIVED from it (bind / unbind / with_entrypoint / select) are different graphs with
+    different contracts. A history of runs over the members of one family - with and without a run-time select=,
+    with the bound name supplied or left out - must give, call by call, what the same call gives on a family that
+    was built from scratch and has seen no other call."""
+    from hypergraph import AsyncRunner, SyncRunner
+
+    rng = ctx.rng
+    spec = gen.gen_dag(rng, n_nodes=(3, 6), p_default_edge=0.0, p_gen=0.0, p_default_input=0.0)
+    rt.reset_program()
+
+    def family():
+        base = build_program(spec).graph
+        req = list(base.inputs.required)
+        fam = {"base": base}
+        if req:
+            x = req[0]
+            fam["bound"] = base.bind(**{x: f"bound:{x}"})
+            fam["rebound"] = fam["bound"].bind(**{x: f"again:{x}"})
+            fam["unbound"] = fam["bound"].unbind(x)
+        names = [ns["name"] for ns in spec["nodes"]]
+        try:
+            fam["entry"] = base.with_entrypoint(names[-1])
+        except Exception:  # noqa: BLE001
+            pass
+        outs = list(base.outputs)
+        if outs:
+            fam["selected"] = base.select(outs[0])
+        return fam
+
+    fam = family()
+    req = list(fam["base"].inputs.required)
+    outs = list(fam["base"].outputs)
+    if not req or not outs:
+        return
+    x = req[0]
+    full = {r: f"in:{r}" for r in req}
+    without_x = {k: v for k, v in full.items() if k != x}
+    sels = [None, [outs[-1]], [outs[0]], list(outs)]
+    calls = []
+    for _ in range(rng.randint(4, 8)):
+        calls.append((rng.choice(sorted(fam)), rng.choice(sels), rng.choice(["full", "without"])))
+    kind = rng.choice(["sync", "async"])
+
+    def call(g, sel, which):
+        provided = dict(full if which == "full" else without_x)
+        c = g.inputs
+        for ps in list(c.entrypoints.values())[:1]:
+            for p_ in ps:
+                provided.setdefault(p_, f"in:{p_}")
+        kw = {"select": sel} if sel is not None else {}
+        rec = rt.new_rec()
+        import warnings
+
+        with warnings.catch_warnings():
+            warnings.simplefilter("ignore")
+            try:
+                res = SyncRunner().run(g, provided, **kw) if kind == "sync" else asyncio.run(AsyncRunner().run(g, provided, **kw))
+                out = (res.status.value, res.values)
+            except Exception as e:  # noqa: BLE001
+                out = ("raised", type(e).__name__)
+        return out, sorted(e[1] for e in rec.ev if e[0] == "enter")
+
+    case = {"spec": spec, "calls": [list(c) for c in calls], "runner": kind, "bound_name": x}
+    for step, (label, sel, which) in enumerate(calls):
+        got = call(fam[label], sel, which)
+        twin = call(family()[label], sel, which)
+        ctx.obs["runs_checked"] += 1
+        ctx.obs["derived_family_calls"] += 1
+        if got != twin:
+            ctx.violation("C18:state-leaked-into-run", f"call {step} ({label}, select={sel}, inputs {which} {x}) after {[list(c) for c in calls[:step]]} on one family of derived graphs: {core.short(got, 300)}; on a family built from scratch: {core.short(twin, 300)}", {**case, "step": step})
+            break
+    ctx.case({"family": sorted(fam), "s": gen.shape_of(spec), "r": kind}, True)
+
+
 def override_of_inner_binding(ctx, i):
     """A mapping node whose inner graph binds a mutable value; the caller passes ITS OWN object for that input, equal
     to the bound one or not. The caller's object is what the node receives and mutates; the bound object is untouched
@@ -397,6 +472,57 @@ def override_of_inner_binding(ctx, i):
     elif bound != bound_before:
         ctx.violation("C18:state-leaked-into-run", f"the value bound on the inner graph changed from {bound_before!r} to {bound!r} during a run that supplied its own object for that input", case)
     ctx.case({"override": True, "equal": start == bound_before, "n": len(items), "r": runner_kind}, True)
+
+
+def mapped_default_items(ctx, i):
+    """A mapping nested-graph node whose MAPPED parameter is supplied by nobody: the work list is the signature default
+    of the inner function (a list of mutable items). An inner node mutates the item it receives. Every run - sync or
+    async, same or fresh runner - starts from the default as written: equal results, untouched __defaults__."""
+    import copy as _copy
+
+    from hypergraph import AsyncRunner, FunctionNode, Graph, SyncRunner
+
+    rng = ctx.rng
+    rt.reset_program()
+    fid = "mdi/work"
+    n_items = rng.randint(1, 3)
+    kind = rng.choice(["lists", "dicts"])
+    default = [[f"d{j}"] for j in range(n_items)] if kind == "lists" else [{"items": [f"d{j}"]} for j in range(n_items)]
+    fn = rt.make_function("work", fid, [{"n": "batch", "d": default}, {"n": "tag"}])
+    rt.KIND[fid] = "fn"
+    rt.BEH[fid] = (lambda kw: beh_mod.apply(["append_mut", "batch", "tag"], kw)) if kind == "lists" else (lambda kw: beh_mod.apply(["nested_mut", "batch", "tag"], kw))
+    inner = Graph([FunctionNode(fn, name="work", output_name="seen")], name="mdi")
+    node = inner.as_node().map_over("batch", clone=rng.choice([False, True]))
+    if rng.random() < 0.4:
+        node = node.with_inputs(batch="work_list")
+    depth2 = rng.random() < 0.3
+    g = Graph([node], name="outer")
+    if depth2:
+        g = Graph([g.as_node()], name="top")
+    before = _copy.deepcopy(fn.__defaults__)
+    exp = [tuple([f"d{j}", "run:tag"]) for j in range(n_items)]
+    runners = [SyncRunner(), AsyncRunner()]
+    case = {"program": f"mapping node over the inner signature default {default!r}, item mutated by the node", "depth2": depth2}
+    for step in range(rng.randint(2, 4)):
+        which = rng.choice(["sync", "async", "fresh-sync", "fresh-async"])
+        try:
+            if which.endswith("async"):
+                r = asyncio.run((AsyncRunner() if which.startswith("fresh") else runners[1]).run(g, {"tag": "run:tag"}))
+            else:
+                r = (SyncRunner() if which.startswith("fresh") else runners[0]).run(g, {"tag": "run:tag"})
+        except Exception as e:  # noqa: BLE001
+            ctx.violation("C18:run-failed", f"run {step} ({which}) of the mapping node over a defaulted work list raised {e!r}", case)
+            return
+        ctx.obs["runs_checked"] += 1
+        ctx.obs["mapped_default_runs"] += 1
+        got = [tuple(x) for x in (r.values.get("seen") or [])]
+        if got != exp:
+            ctx.violation("C18:repeat-differs", f"run {step} ({which}): items saw {got}; every run starts from the default as written: {exp}", {**case, "step": step})
+            return
+        if fn.__defaults__ != before:
+            ctx.violation("C18:defaults-mutated", f"run {step} ({which}) changed the function's __defaults__ from {before!r} to {fn.__defaults__!r}", {**case, "step": step})
+            return
+    ctx.case({"mapped-default": kind, "n": n_items, "depth2": depth2}, True)
 
 
 def bound_outside_selection(ctx, i):
@@ -503,6 +629,10 @@ def run(ctx):
             handler_object_reuse(ctx, i)
         elif i % 24 == 16:
             bound_outside_selection(ctx, i)
+        elif i % 24 == 10:
+            mapped_default_items(ctx, i)
+        elif i % 12 == 5:
+            derived_family_history(ctx, i)
         elif i % 3 == 2:
             concurrent_async(ctx, i)
         else:
